@@ -26,4 +26,7 @@ def run(prog, rep):
     if eu is not None:
         rep.attempt(report_unit, rep, cd, eu, rule="entry-codec-symmetry")
         rep.attempt(attr_linkage, rep, cd, eu, rule="entry-codec-symmetry")
+    # comments / labels reach the file unaltered only if the string writer refuses what does not fit instead of cutting it
+    from .c13 import string_write_rules
+    rep.attempt(string_write_rules, prog, rep)
     rep.not_decided += ["OS write-back after flush() (no fsync is claimed by the property)"]
